@@ -107,26 +107,42 @@ def check_append_only(chk, tu):
 
 
 def check_insertion(chk, tu):
-    # wasiFileDescriptorAdd on a table of n slots returns n and leaves the old slots untouched
-    for n_extra in ((0, 2) if chk.tier == 'quick' else (0, 1, 2, 3, 5, 8)):
+    # wasiFileDescriptorAdd returns a number that was not live before (a new last index, or the index of a closed slot it reuses), that
+    # slot now holds the new descriptor, and every descriptor that was live before is untouched - also when the table contains closed
+    # slots (in the middle, at the end, several)
+    CLOSED = dict(fd=-1, dir=0, path=0)
+    shapes = [(0, ()), (2, ()), (2, (4,)), (2, (5,)), (3, (4, 6))] if chk.tier == 'quick' else \
+        [(0, ()), (1, ()), (2, ()), (3, ()), (5, ()), (8, ()), (2, (4,)), (2, (5,)), (3, (4, 6)), (3, (5,)), (4, (4, 5, 6, 7)), (2, (0,)), (3, (1, 5))]
+    for n_extra, closed in shapes:
         res = {'v': unk('out')}
-        before = std_table(n_extra)
+
+        def table(n_extra=n_extra, closed=closed):
+            t = std_table(n_extra)
+            for k in closed:
+                t[k] = dict(CLOSED)
+            return t
+        before = table()
 
         def mk(it, state):
             return [77, '/preopen/new', Ptr(res, 'v')]
-        paths = W.explore_entry(tu, 'wasiFileDescriptorAdd', mk, lambda: std_table(n_extra))
+        paths = W.explore_entry(tu, 'wasiFileDescriptorAdd', mk, table)
         good = [p for p in paths if p.ret == 1]
         chk.require(good, 'wasiFileDescriptorAdd has no success path')
+        tag = 'n=%d' % len(before) + (',closed=%s' % '+'.join(map(str, closed)) if closed else '')
         for p in good:
             t = p.state['table']
             n = len(before)
-            ok = res['v'] == n and len(t) >= n + 1 and t[n]['fd'] == 77 and \
-                all(t[i]['fd'] == before[i]['fd'] and t[i]['path'] == before[i]['path'] and t[i]['dir'] == before[i]['dir'] for i in range(n))
-            chk.expect(ok, 'R13.1', 'insertion-returns-new-last-index[n=%d]' % n,
-                       'inserting into a table of %d slots returned descriptor %r and produced table %r - an existing live '
-                       'descriptor would be aliased' % (n, res['v'], [(d['fd'], d['path']) for d in t]), 'wasiFileDescriptorAdd')
-            chk.expect(p.state['wasi']['fds']['length'] == n + 1, 'R13.1', 'insertion-length[n=%d]' % n,
-                       'table length after insertion is %r' % (p.state['wasi']['fds']['length'],), 'wasiFileDescriptorAdd')
+            d = res['v']
+            length = p.state['wasi']['fds']['length']
+            live_before = [i for i in range(n) if i not in closed]
+            ok = isinstance(d, int) and isinstance(length, int) and 0 <= d < length and d < len(t) and d not in live_before and t[d]['fd'] == 77 and \
+                all(t[i]['fd'] == before[i]['fd'] and t[i]['path'] == before[i]['path'] and t[i]['dir'] == before[i]['dir'] for i in live_before)
+            chk.expect(ok, 'R13.1', 'insertion-returns-fresh-number[%s]' % tag,
+                       'inserting into a table of %d slots (closed: %s) returned descriptor %r and produced table %r (length %r) - the returned number '
+                       'must denote the slot that now holds the new descriptor and must not be a number that was live before: an existing live '
+                       'descriptor would be aliased' % (n, list(closed) or 'none', d, [(x['fd'], x['path']) for x in t], length), 'wasiFileDescriptorAdd')
+            chk.expect(isinstance(length, int) and n <= length <= n + 1, 'R13.1', 'insertion-length[%s]' % tag,
+                       'table length after insertion is %r (was %d)' % (length, n), 'wasiFileDescriptorAdd')
     # wasiInit
     paths = W.explore_entry(tu, 'wasiInit', lambda it, st: [0, Ptr([0], 0), Ptr([0], 0)], lambda: [])
     good = [p for p in paths if p.ret == 1]
